@@ -36,6 +36,7 @@ class Ctx:
         self.side = []        # (name, z3 goal under guards) side obligations
         self.engine = engine
         self.line = line
+        self.binders = 0      # depth of forall/exists binders of the spec term being evaluated
 
     def guard_term(self):
         return z3.And(*self.guards) if self.guards else z3.BoolVal(True)
@@ -126,6 +127,12 @@ def truthy(v):
     if isinstance(ty, TDict):
         k = fresh('k', ty.k.sort())
         return z3.Exists([k], z3.Select(ty.has(v.t), k))
+    if isinstance(ty, TBag):
+        k = fresh('k', ty.elem.sort())
+        return z3.Exists([k], z3.Select(v.t, k) > 0)
+    if isinstance(ty, TSet):
+        k = fresh('k', ty.elem.sort())
+        return z3.Exists([k], z3.Select(v.t, k))
     raise OutOfSubset(f'truthy {ty}')
 
 
@@ -148,6 +155,15 @@ def coerce(v, ty):
     if isinstance(ty, TTuple) and isinstance(v.ty, TTuple) and len(ty.elems) == len(v.ty.elems):
         parts = [coerce(V(e, v.ty.acc(i, v.t)), ty.elems[i]).t for i, e in enumerate(v.ty.elems)]
         return V(ty, ty.mk(*parts))
+    if isinstance(ty, TBag) and isinstance(v.ty, TList) and v.ty.elem.sort() == ty.elem.sort():
+        # a list LITERAL (concrete length) where a bag is expected: the order is abstracted
+        nn = z3.simplify(list_len(v))
+        if z3.is_int_value(nn):
+            b = z3.K(ty.elem.sort(), z3.IntVal(0))
+            for i in range(nn.as_long()):
+                x = z3.simplify(z3.Select(v.ty.arr(v.t), i))
+                b = z3.Store(b, x, z3.Select(b, x) + 1)
+            return V(ty, b)
     raise OutOfSubset(f'cannot coerce {v.ty} to {ty}')
 
 
@@ -339,6 +355,15 @@ class Evaluator:
                 return V(STR, z3.Concat(a.t, b.t))
             if isinstance(a.ty, TList) and isinstance(b.ty, TList):
                 return self.list_concat(a, b, ctx)
+            if isinstance(a.ty, TList) and isinstance(b.ty, TBag) or isinstance(a.ty, TBag) and isinstance(b.ty, TList):
+                # [x, ..] + list(generator): order abstracted, the bag sum
+                lit, bag = (a, b) if isinstance(a.ty, TList) else (b, a)
+                lb = self.engine.literal_list_to_bag(V(TList(bag.ty.elem), lit.t) if lit.ty.elem != bag.ty.elem and lit.ty.sort() == TList(bag.ty.elem).sort() else lit)
+                if lb is None or lb.ty != bag.ty:
+                    raise OutOfSubset(f'{a.ty} + {b.ty}')
+                return self.engine.bag_union(lb, bag, ctx)
+            if isinstance(a.ty, TBag) and isinstance(b.ty, TBag) and a.ty == b.ty:
+                return self.engine.bag_union(a, b, ctx)
             if isinstance(a.ty, TTuple) and isinstance(b.ty, TTuple):
                 return mk_tuple(tuple_parts(a) + tuple_parts(b))
         if isinstance(op, ast.Mult):
@@ -661,9 +686,15 @@ class Evaluator:
             return V(STR, z3.SubString(base.t, lo, ln))
         if isinstance(base.ty, TList):
             lt = base.ty
-            r = fresh('slice', lt.sort())
+            # the slice is a FUNCTION of (list, lo, hi): the same slice expression evaluated twice denotes the same value
+            r = z3.Function('slice_' + lt.name.replace('[', '_').replace(']', '').replace(',', '_'), lt.sort(), z3.IntSort(),
+                            z3.IntSort(), lt.sort())(base.t, lo, hi)
             k = fresh('k', z3.IntSort())
             ctx.assume(lt.n(r) == ln)
+            if ctx.binders > 0:
+                # inside a quantified spec term the slice is only a NAME for f(list, lo, hi) (compared by congruence with the
+                # code's own slice); its element axioms would be re-stated under every binder for nothing
+                return V(lt, r)
             ctx.assume(z3.ForAll([k], z3.Implies(z3.And(0 <= k, k < ln),
                                                  z3.Select(lt.arr(r), k) == z3.Select(lt.arr(base.t), lo + k))))
             x = fresh('x', z3.IntSort())   # same axiom indexed by the source position (trigger on base[x])
